@@ -140,12 +140,12 @@ public:
   /// vectors.
   Angle(const PlanarVector<NumericType>& planar_vector_1,
         const PlanarVector<NumericType>& planar_vector_2)
-    : Angle(std::acos(planar_vector_1.Dot(planar_vector_2)
+    : Angle(ArcCosine(planar_vector_1.Dot(planar_vector_2)
                       / (planar_vector_1.Magnitude() * planar_vector_2.Magnitude()))) {}
 
   /// \brief Constructor. Constructs an angle by computing the angle between two given vectors.
   Angle(const Vector<NumericType>& vector1, const Vector<NumericType>& vector2)
-    : Angle(std::acos(vector1.Dot(vector2) / (vector1.Magnitude() * vector2.Magnitude()))) {}
+    : Angle(ArcCosine(vector1.Dot(vector2) / (vector1.Magnitude() * vector2.Magnitude()))) {}
 
   /// \brief Constructor. Constructs an angle by computing the angle between a given planar vector
   /// and planar direction.
@@ -336,6 +336,20 @@ public:
   }
 
 private:
+  /// \brief Arc cosine of the cosine of the angle between two vectors. Rounding in the dot product,
+  /// the magnitudes and the quotient can leave the computed cosine slightly outside [-1, 1] for
+  /// parallel or antiparallel vectors, for which std::acos would return NaN; the cosine is therefore
+  /// clamped to [-1, 1] first.
+  [[nodiscard]] static NumericType ArcCosine(const NumericType cosine) noexcept {
+    if (cosine > static_cast<NumericType>(1)) {
+      return std::acos(static_cast<NumericType>(1));
+    }
+    if (cosine < static_cast<NumericType>(-1)) {
+      return std::acos(static_cast<NumericType>(-1));
+    }
+    return std::acos(cosine);
+  }
+
   /// \brief Constructor. Constructs an angle with a given value expressed in the standard angle
   /// unit.
   explicit constexpr Angle(const NumericType value)
